@@ -49,7 +49,16 @@ class Ctx(object):
             eff = Effects(self.model, self.cg, g)
             cg = self.cg
             eff.analyse(self.root)
-            for k in sorted(cg.p_roots) + sorted(cg.t_roots) + sorted(cg.registry_keys):
+            from .effects import _PSym
+            for k in sorted(cg.p_roots):
+                m, f = cg.funcs[k]
+                base = eff.default_args(k)
+                prods = [p for p in g.productions if p.funcname == f.name] if g is not None else []
+                if not prods:
+                    eff.analyse(k)
+                for p in prods:     # one context per production alternative: len(p) and the symbol kinds are known
+                    eff.analyse(k, [(_PSym(eff, m, f, p) if isinstance(a, _PSym) else a) for a in base])
+            for k in sorted(cg.t_roots) + sorted(cg.registry_keys):
                 eff.analyse(k)
             for k in sorted(self.reach):
                 if k not in eff.analysed:
